@@ -419,7 +419,7 @@ Proof. intros a b H. apply erase_same in H. destruct H as [_ [_ [_ [_ [_ [_ [Hg 
 Lemma erase_qualifies : forall a b g, erase a = erase b -> qualifies E g a = qualifies E g b.
 Proof.
   intros a b g H. unfold qualifies, is_active, qview.
-  assert (Hs : c_status a = c_status b) by (apply erase_same in H; tauto).
+  assert (Hs : c_status a = c_status b) by (apply erase_same in H; unfold same_contact in H; tauto).
   assert (Hq : erase (with_groups a []) = erase (with_groups b [])).
   { destruct a, b. unfold erase, with_urns, with_groups in *. cbn in *. inversion H; subst. reflexivity. }
   rewrite Hs, Hq. reflexivity.
